@@ -838,12 +838,38 @@ def join_guards(a, b, out):
             sa = set(a.guards.get(key, ())) | set(lost_a)
             sb = set(b.guards.get(key, ())) | set(lost_b)
             fs = sa & sb
+            # a fact recorded for this key on one side is kept when the other side entails it *under the same condition*
+            # (its own facts for the key asserted), not only when it holds there unconditionally
+            under = {}
+
+            def conditioned(s, which):
+                if which not in under:
+                    c = s.copy()
+                    try:
+                        var, value = key
+                        if isinstance(value, tuple):
+                            e = get_at(c.cells.get(var[0], Top()), var[1])
+                            if isinstance(e, Enum) and len(e.variants) > 1 and value[1] in e.variants:
+                                c.cells[var[0]] = set_at(c.cells[var[0]], var[1], Enum(e.path, {value[1]: e.variants[value[1]]}))
+                        c.apply_guard(var, value)
+                        under[which] = c
+                    except Infeasible:
+                        under[which] = None
+                return under[which]
             for f in sa - fs:
                 if _state_entails_fact(b, f):
                     fs.add(f)
+                else:
+                    cb = conditioned(b, "b")
+                    if cb is not None and _state_entails_fact(cb, f):
+                        fs.add(f)
             for f in sb - fs:
                 if _state_entails_fact(a, f):
                     fs.add(f)
+                else:
+                    ca = conditioned(a, "a")
+                    if ca is not None and _state_entails_fact(ca, f):
+                        fs.add(f)
         if fs:
             res[key] = frozenset(fs)
     return res
